@@ -1,1 +1,120 @@
+//! Storage faults applied to a stored byte image between a save and a later
+//! load: what a torn, flipped, lost, stale, misdirected, duplicated or
+//! cross-linked write looks like to the reader. All choices from stream F.
 
+use crate::ctx::{Ctx, Stream::F};
+
+pub const FAULT_KINDS: [&str; 9] =
+    ["truncate", "bit-flip", "byte-burst", "zero-block", "stale-block", "misdirected-block", "duplicated-block", "splice", "digit-edit"];
+
+fn block_size(ctx: &Ctx) -> usize {
+    [16usize, 64, 512, 4096][ctx.draw(F, 4, "block-size") as usize]
+}
+
+/// Pick a position: half of the time inside one of the `hot` spans (structural
+/// fields the harness knows from the layout), otherwise anywhere.
+fn position(ctx: &Ctx, len: usize, hot: &[(usize, usize)]) -> usize {
+    if len == 0 {
+        return 0;
+    }
+    if !hot.is_empty() && ctx.chance(F, 1, 2, "fault-on-structure") {
+        let (s, e) = hot[ctx.draw(F, hot.len() as u64, "hot-span") as usize];
+        let e = e.min(len).max(s + 1);
+        let s = s.min(len - 1);
+        return (s + ctx.draw(F, (e - s).max(1) as u64, "hot-offset") as usize).min(len - 1);
+    }
+    ctx.draw(F, len as u64, "fault-pos") as usize
+}
+
+/// Apply one storage fault. `older`: an earlier image of the same file (for
+/// stale blocks and splices). Returns the kind applied.
+pub fn apply_fault(ctx: &Ctx, img: &mut Vec<u8>, older: Option<&[u8]>, hot: &[(usize, usize)]) -> &'static str {
+    if img.is_empty() {
+        return "none";
+    }
+    let kind = FAULT_KINDS[ctx.draw(F, FAULT_KINDS.len() as u64, "disk-fault-kind") as usize];
+    let len = img.len();
+    match kind {
+        "truncate" => {
+            let p = position(ctx, len, hot);
+            img.truncate(p);
+        }
+        "bit-flip" => {
+            for _ in 0..1 + ctx.draw(F, 3, "flips") {
+                let p = position(ctx, len, hot);
+                img[p] ^= 1 << ctx.draw(F, 8, "bit");
+            }
+        }
+        "byte-burst" => {
+            let p = position(ctx, len, hot);
+            let n = 1 + ctx.draw(F, 8, "burst-len") as usize;
+            for i in p..(p + n).min(len) {
+                img[i] = ctx.draw(F, 256, "burst-byte") as u8;
+            }
+        }
+        "digit-edit" => {
+            // a flipped stored digit inside a number: numeric extremes in lengths, offsets, counts
+            let p = position(ctx, len, hot);
+            if let Some(q) = (p..len.min(p + 64)).find(|&i| img[i].is_ascii_digit()) {
+                img[q] = b'0' + ctx.draw(F, 10, "digit") as u8;
+            }
+        }
+        "zero-block" => {
+            let b = block_size(ctx);
+            let p = position(ctx, len, hot) / b * b;
+            for i in p..(p + b).min(len) {
+                img[i] = 0;
+            }
+        }
+        "stale-block" => {
+            let b = block_size(ctx);
+            let p = position(ctx, len, hot) / b * b;
+            match older {
+                Some(o) if p < o.len() => {
+                    let e = (p + b).min(len).min(o.len());
+                    img[p..e].copy_from_slice(&o[p..e]);
+                }
+                _ => {
+                    for i in p..(p + b).min(len) {
+                        img[i] = b' ';
+                    }
+                }
+            }
+        }
+        "misdirected-block" => {
+            let b = block_size(ctx);
+            let from = position(ctx, len, hot) / b * b;
+            let to = ctx.draw(F, (len / b + 1) as u64, "misdirect-to") as usize * b;
+            let blk: Vec<u8> = img[from..(from + b).min(len)].to_vec();
+            for (i, c) in blk.iter().enumerate() {
+                if to + i < len {
+                    img[to + i] = *c;
+                }
+            }
+        }
+        "duplicated-block" => {
+            let b = block_size(ctx);
+            let p = position(ctx, len, hot) / b * b;
+            let blk: Vec<u8> = img[p..(p + b).min(len)].to_vec();
+            let at = (p + blk.len()).min(len);
+            img.splice(at..at, blk);
+        }
+        _ => {
+            // splice: head of this image, tail of another one (cross-linked blocks)
+            let b = block_size(ctx);
+            let p = position(ctx, len, hot) / b * b;
+            if let Some(o) = older {
+                if p < o.len() {
+                    img.truncate(p);
+                    img.extend_from_slice(&o[p..]);
+                }
+            } else {
+                let q = ctx.draw(F, len as u64, "splice-from") as usize / b * b;
+                let tail: Vec<u8> = img[q..].to_vec();
+                img.truncate(p);
+                img.extend_from_slice(&tail);
+            }
+        }
+    }
+    kind
+}
